@@ -13,6 +13,7 @@ where each construct's jumps go (props/C09.py holds the rules; analysis/jumps.py
              rely on; Function::run applies jumps without the +1 step and returns on ret after dropping the function's block frames.
 These are necessary conditions: breaking any of them changes the output of some core program.
 """
+import mir
 import jumps
 from absint import Variant, Opaque, Tup, Int
 from core import AnchorMissing
@@ -77,3 +78,49 @@ def run(ctx, rep):
     parameters(F, rep)
     from props import _viewread
     _viewread.run(F, rep, "C01.view-read")
+    blank_return(F, rep)
+
+
+
+def blank_return(F, rep, rule="C01.blank-return"):
+    """A function without a declared result yields void, and `return` without a value is how such a function ends early (`if c { return }`; the
+    case table in Parser::return_statement lists it).  ScopeReturnStatus::get_type answers Some(void) for those functions, so the
+    "no value was supplied" refusal of a blank return has to leave void out: the value-less path of return_statement (or a closure it hands
+    to Option::filter and the like) tests the expected type against TypeLayout::Void.  Without it every blank `return` is refused."""
+    rs = None
+    for g in F.crates["compiler"].fns:
+        if g.path.endswith("::return_statement") and "impl compiler::parser::Parser" in g.path and g.kind != "Closure":
+            rs = g
+    if rs is None:
+        raise AnchorMissing("Parser::return_statement")
+    tl = F.adt("compiler::ast::r#type::TypeLayout")
+    void_i = str([v["name"] for v in tl["variants"]].index("Void"))
+    gt = F.fn("compiler::scope::ScopeReturnStatus::get_type")
+    if gt is None:
+        raise AnchorMissing("ScopeReturnStatus::get_type")
+    # does get_type answer Some(..) for the Void status?  (its switch has an arm for Void that does not lead to the None result only)
+    sr = F.adt("compiler::scope::ScopeReturnStatus")
+    srn = [v["name"] for v in sr["variants"]]
+    void_some = False
+    for blk in gt.blocks:
+        t = blk["t"]
+        if t["k"] == "switch" and t.get("dty") == "isize":
+            tg = dict(t["targets"]).get(str(srn.index("Void")))
+            if tg is not None and tg != t["otherwise"]:
+                void_some = True
+    tests = 0
+    for g in [rs] + F.closures_of(rs):
+        for blk in g.blocks:
+            t = blk["t"]
+            if t["k"] != "switch" or t.get("dty") != "isize":
+                continue
+            dl = mir.op_local(t["discr"])
+            for s_ in blk["s"]:
+                rv = s_.get("rv") or {}
+                if "d" in s_ and s_["d"]["l"] == dl and "discr" in rv and "TypeLayout" in g.locals[rv["discr"]["l"]] and "ScopeReturnStatus" not in g.locals[rv["discr"]["l"]]:
+                    if any(v == void_i for v, _ in t["targets"]):
+                        tests += 1
+    ok = tests > 0 or not void_some
+    rep.ob(rule, "a blank `return` is not refused for a function that yields void", "ok" if ok else "violated",
+           "" if ok else "get_type() answers Some(void) for a void function and return_statement never tests the expected type against void: `f = fn(x: int) { if x > 0 { return } print 2 }` "
+                         "is refused (\"expected to return void, but no value was supplied\")", rs.span, fn=rs.path, key=rule)
